@@ -2,7 +2,7 @@
 # usage: seedtest.sh <dir with patch.diff> <property id> [tier]   -- applies the patch to /repo, runs the check, reverts
 set -u
 d=$1; pid=$2; tier=${3:-quick}
-cd /repo && git stash -q 2>/dev/null; git -C /repo apply "$d/patch.diff" || { echo "PATCH DOES NOT APPLY"; exit 9; }
+git -C /repo diff --quiet || { echo "/repo has uncommitted changes"; exit 9; }; git -C /repo apply "$d/patch.diff" || { echo "PATCH DOES NOT APPLY"; exit 9; }
 cd /verif && ./check $pid --tier $tier | grep -v "^$" | tail -12; rc=${PIPESTATUS[0]}
-git -C /repo checkout -- . ; git -C /repo stash pop -q 2>/dev/null
+git -C /repo checkout -- . 
 echo "check exit=$rc"
